@@ -73,6 +73,11 @@ def main():
     sel = sys.argv[1:]
     out_path = "/verif/seeded/campaign_results.json"
     results = json.load(open(out_path)) if os.path.exists(out_path) else {}
+    lock = "/tmp/vf_campaign.lock"
+    if os.path.exists(lock) and os.path.exists("/proc/%s" % open(lock).read().strip()):
+        print("another campaign is running")
+        return 1
+    open(lock, "w").write(str(os.getpid()))
     if sh("git -C /repo diff --quiet").returncode != 0:
         print("refusing: /repo dirty")
         return 1
